@@ -69,9 +69,13 @@ TilingCovers ==
   /\ (L0[2] = -1 => (toks = <<>> /\ Len(text) = 0) \/ toks[Len(toks)][3] = Len(text))
 
 \* contextual refinement: if every token of the full lexer has a type the context allows (or is ignored),
-\* the lexer restricted to the context (plus ignored terminals) yields the same tokens
+\* the lexer restricted to the context (plus ignored terminals) yields the same tokens - for terminal sets whose
+\* regexp terminals do not overlap one another, as the property says.  Without the proviso it is false at three
+\* terminals:  KA "a", RLOW /[ab]+/, RANYI /[abA]+/i (RLOW first), text "aA", context {KA, RANYI}: the full lexer
+\* says KA RANYI, the restricted one RANYI("aA").
+RegexpsDisjoint == \A r, s \in All : (r # s /\ ~T[r].isstr /\ ~T[s].isstr) => lang[r] \cap lang[s] = {}
 RestrictionRefines ==
   LET ctx == among \cup {i \in All : T[i].ign} IN
-  (L1[2] = -1 /\ \A k \in DOMAIN L1[1] : L1[1][k][1] \in ctx) =>
+  (RegexpsDisjoint /\ L1[2] = -1 /\ \A k \in DOMAIN L1[1] : L1[1][k][1] \in ctx) =>
       Lex1(T, MT, SMx, Ord, ctx, 0, Len(text), <<>>) = L1
 =============================================================================
